@@ -2,7 +2,7 @@
   C01, stage D — programs: a list of 𝔽₂ functions that may call each other (`Stmt.call`: direct calls as
   statements, `[x =] f(args);`, integer arguments and results, recursion allowed).
 
-  `execP` is `CSem2.exec` with the function table: a call evaluates the arguments in the caller's store
+  `CSem2.exec` takes the function table: a call evaluates the arguments in the caller's store
   (they are pure; cproc has converted them to the parameter types, 6.5.2.2p7), executes the callee's body on
   a fresh store with fuel one less, and — if a variable receives the result — converts the returned value
   to its type (6.5.16.1p2).  Flowing off the end of the callee without `return` is undefined here (every
@@ -15,86 +15,10 @@ open CprocVerif.CSem CprocVerif.CSem2 CprocVerif.CInt
 
 abbrev Prog := List CSem2.Func
 
-def lookup (P : Prog) (fn : String) : Option CSem2.Func := P.find? fun g => g.name == fn
+abbrev lookup (P : Prog) (fn : String) : Option CSem2.Func := CSem2.lookup P fn
 
-def evalArgs (cs : Bool) (s : Store) : List Expr → Option (List Int)
-  | [] => some []
-  | e :: es => (evalE cs s e).bind fun v => (evalArgs cs s es).map fun vs => v :: vs
-
-def execP (cs : Bool) (P : Prog) : Nat → Store → Stmt → Option Outcome
-  | 0, _, _ => none
-  | _ + 1, s, .skip => some (.normal s)
-  | _ + 1, s, .decl i _ none => some (.normal (s.set i none))
-  | _ + 1, s, .decl i _ (some e) =>
-    (evalE cs (s.set i none) e).map fun v => .normal (s.set i (some v))
-  | _ + 1, s, .assign i _ e => (evalE cs s e).map fun v => .normal (s.set i (some v))
-  | _ + 1, s, .incdec i t inc =>
-    ((s[i]?).join.bind (incdecVal cs t inc)).map fun v => .normal (s.set i (some v))
-  | _ + 1, s, .expr e => (evalE cs s e).map fun _ => .normal s
-  | _ + 1, s, .ret e => (evalE cs s e).map .ret
-  | n + 1, s, .seq a b =>
-    match execP cs P n s a with
-    | some (.normal s') => execP cs P n s' b
-    | o => o
-  | n + 1, s, .ite c a =>
-    (evalE cs s c).bind fun v => if v ≠ 0 then execP cs P n s a else some (.normal s)
-  | n + 1, s, .itee c a b =>
-    (evalE cs s c).bind fun v => if v ≠ 0 then execP cs P n s a else execP cs P n s b
-  | n + 1, s, .while_ c b =>
-    (evalE cs s c).bind fun v =>
-      if v = 0 then some (.normal s) else
-      match execP cs P n s b with
-      | some (.normal s') => execP cs P n s' (.while_ c b)
-      | some (.cont s') => execP cs P n s' (.while_ c b)
-      | some (.brk s') => some (.normal s')
-      | o => o
-  | n + 1, s, .dowhile b c =>
-    match execP cs P n s b with
-    | some (.normal s') =>
-      (evalE cs s' c).bind fun v => if v ≠ 0 then execP cs P n s' (.dowhile b c) else some (.normal s')
-    | some (.cont s') =>
-      (evalE cs s' c).bind fun v => if v ≠ 0 then execP cs P n s' (.dowhile b c) else some (.normal s')
-    | some (.brk s') => some (.normal s')
-    | o => o
-  | n + 1, s, .for_ c step b =>
-    ((match c with
-      | some e => evalE cs s e
-      | none => some 1) : Option Int).bind fun v =>
-      if v = 0 then some (.normal s) else
-      match execP cs P n s b with
-      | some (.normal s') =>
-        (match execP cs P n s' step with
-         | some (.normal s'') => execP cs P n s'' (.for_ c step b)
-         | _ => none)
-      | some (.cont s') =>
-        (match execP cs P n s' step with
-         | some (.normal s'') => execP cs P n s'' (.for_ c step b)
-         | _ => none)
-      | some (.brk s') => some (.normal s')
-      | o => o
-  | _ + 1, s, .break_ => some (.brk s)
-  | _ + 1, s, .continue_ => some (.cont s)
-  | _ + 1, s, .case_ _ => some (.normal s)
-  | _ + 1, s, .default_ => some (.normal s)
-  | n + 1, s, .switch_ e b =>
-    (evalE cs s e).bind fun v =>
-      match pick cs e.ty v b with
-      | none => some (.normal (clear s (declIdx b)))
-      | some b' =>
-        match execP cs P n (clear s (declIdx b)) b' with
-        | some (.brk s') => some (.normal s')
-        | o => o
-  | n + 1, s, .call dst rt fn args =>
-    match lookup P fn with
-    | none => none
-    | some g =>
-      (evalArgs cs s args).bind fun vs =>
-        match execP cs P n (initStore g vs) g.body with
-        | some (.ret v) =>
-          (match dst with
-           | none => some (.normal s)
-           | some (i, t) => some (.normal (s.set i (some (conv (rt.intTy cs) (t.intTy cs) v)))))
-        | _ => none
+/-- `CSem2.exec` in the program `P` -/
+abbrev execP (cs : Bool) (P : Prog) : Nat → Store → Stmt → Option Outcome := CSem2.exec cs P
 
 /-- The value the call `entry(ρ)` returns in the program `P`. -/
 def runP (cs : Bool) (fuel : Nat) (P : Prog) (entry : String) (ρ : List Int) : Option Int :=
@@ -105,21 +29,7 @@ def runP (cs : Bool) (fuel : Nat) (P : Prog) (entry : String) (ρ : List Int) : 
     | some (.ret v) => some v
     | _ => none
 
-/-- every call names a function of the program, with arguments of the parameter types and the
-    declared return type -/
-def callsOK (P : Prog) : Stmt → Bool
-  | .call _ rt fn args =>
-    match lookup P fn with
-    | some g => g.ret == rt && args.map (·.ty) == g.params
-    | none => false
-  | .seq a b => callsOK P a && callsOK P b
-  | .ite _ a => callsOK P a
-  | .itee _ a b => callsOK P a && callsOK P b
-  | .while_ _ b => callsOK P b
-  | .dowhile b _ => callsOK P b
-  | .for_ _ st b => callsOK P st && callsOK P b
-  | .switch_ _ b => callsOK P b
-  | _ => true
+abbrev callsOK (P : Prog) : Stmt → Bool := CSem2.callsOK P
 
 def wtP (P : Prog) : Bool := P.all fun f => f.wt && callsOK P f.body
 
